@@ -1252,16 +1252,16 @@ class Interp:
             vals = [self.ev(v, env, ctx) for v in node.values]
             tag = "and" if isinstance(node.op, ast.And) else "or"
             out = []
-            for v in vals:
-                if is_const(v):
+            for i, v in enumerate(vals):
+                last = i == len(vals) - 1
+                if is_const(v) and not last:
+                    # `c and x` / `c or x` with a constant, non-final operand
                     if tag == "and" and not v[1]:
-                        return v
+                        return v if not out else (tag, tuple(out) + (v,))
                     if tag == "or" and v[1]:
-                        return v
+                        return v if not out else (tag, tuple(out) + (v,))
                     continue
                 out.append(v)
-            if not out:
-                return C(tag == "and")
             if len(out) == 1:
                 return out[0]
             return (tag, tuple(out))
@@ -1719,6 +1719,10 @@ def assigned_names(stmts) -> list[str]:
                     s.value.func, ast.Attribute) and s.value.func.attr in ("append", "extend") and isinstance(
                     s.value.func.value, ast.Name):
                 add(s.value.func.value.id)
+            elif isinstance(s, ast.Expr) and isinstance(s.value, ast.Call) and isinstance(
+                    s.value.func, ast.Attribute) and s.value.func.attr in ("append", "extend") and isinstance(
+                    s.value.func.value, ast.Subscript) and isinstance(s.value.func.value.value, ast.Name):
+                add(s.value.func.value.value.id)
             elif isinstance(s, ast.FunctionDef):
                 add(s.name)
     visit(stmts)
